@@ -15,7 +15,7 @@ from __future__ import annotations
 
 from .core import AnalysisError
 from .linesem import ref_line_col
-from .objmodel import ClassModel, new_parser_state
+from .objmodel import ClassModel, maybe_install_re, new_parser_state
 from .ordabs import ModelRaise, Obj
 from .repo import Repo
 
@@ -28,6 +28,7 @@ def program(repo: Repo, where: str) -> ClassModel:
     for need in ("PestParsingError", "ParserState"):
         if need not in cm.classes:
             raise AnalysisError(f"{where}: anchor vanished: class {need}")
+    maybe_install_re(cm)
 
     def exc_init(self: Obj, *args: object) -> None:
         self.__dict__["args"] = tuple(args)
@@ -79,4 +80,30 @@ def check_render(repo: Repo, where: str) -> tuple[int, list[tuple[str, str]]]:
                     names = set(state.furthest_expected) | set(state.furthest_unexpected)
                     if not names <= {"r", "inner"}:
                         bad.append(("the failure lists a name that is not a rule on the rule stack", f"{desc}: {sorted(names)}"))
+    # join_with_limit near its limit: the full join is tried with the *last* separator, the truncation loop counts with
+    # the plain one - every relation of the two totals to the limit, for lists of one to four names of three lengths
+    jwl = cm.env.get("join_with_limit")
+    if jwl is None:
+        if "exceptions.py" in " ".join(cm.rels):
+            raise AnalysisError(f"{where}: anchor vanished: join_with_limit()")
+        return n, bad
+    import itertools  # noqa: PLC0415
+
+    names = {1: "a", 3: "bcd", 7: "efghijk"}
+    for limit in (0, 1, 8, 9, 10, 11, 12, 14, 20):
+        for k in (1, 2, 3, 4):
+            for lens in itertools.product((1, 3, 7), repeat=k):
+                items = [names[x] for x in lens]
+                for last in (" or ", None):
+                    n += 1
+                    desc = f"join_with_limit({items}, ', ', {last!r}, {limit})"
+                    try:
+                        got = jwl(list(items), ", ", last, limit)
+                    except ModelRaise as err:
+                        bad.append((f"join_with_limit raises {str(err).split(':')[0]}", f"{desc}: {err}"))
+                        continue
+                    # (that the result respects the limit is the function's own documentation, not the property: on
+                    # today's tree ['a', 'efghijk'] with limit 11 gives the 12 characters 'a or efghijk'; not judged)
+                    if not isinstance(got, str):
+                        bad.append(("join_with_limit does not return a string", f"{desc}: {got!r}"))
     return n, bad
